@@ -107,6 +107,58 @@ def run(ctx):
             sf = [x for x in shown if x[0] in ('fail', 'warn')]
             if sf != want:
                 ctx.violation('lookup-differs/%s' % c, '--lookup %s shows %r, the database says %r' % (asked, sf, want), {'op': 'lookup', 'name': asked})
+    # measured attributes over TCP: the notes of each host-key algorithm in a real audit (host-key probes run) are those of the same
+    # algorithm with the same measured size in isolation; sizes measured for one key type never colour another type
+    import peers as P
+    hk_cases = []
+    fam = ['rsa-sha2-512', 'rsa-sha2-256', 'ssh-rsa']
+    for size in ((1024, 2048, 3072) if q else (1024, 2048, 3072, 4096, 1536)):
+        for keys in ([fam[0], 'ssh-ed25519'], ['ssh-ed25519'] + fam, fam[:2] + ['ssh-ed25519', 'ecdsa-sha2-nistp256'], ['ssh-ed25519', 'ssh-rsa']):
+            hk_cases.append({'size': size, 'key': keys, 'banner': rng.choice(['SSH-2.0-OpenSSH_8.4', 'SSH-2.0-OpenSSH_9.6', 'SSH-2.0-dropbear_2020.81'])})
+
+    def do_hk(z, c):
+        hk = {}
+        for t in c['key']:
+            if t in fam: hk[t.encode()] = P.rsa_blob(c['size'])
+            elif t == 'ssh-ed25519': hk[t.encode()] = P.ed25519_blob()
+        srv = P.new_ssh2_server(dict(banner=c['banner'].encode(), kex=['curve25519-sha256', 'diffie-hellman-group14-sha256'], key=c['key'], enc=['aes256-ctr'], mac=['hmac-sha2-512-etm@openssh.com'], hostkeys=hk))
+        try:
+            return z.run(['-j', '--skip-rate-test', '-t', '2', '127.0.0.1:%d' % srv.port], timeout=90)
+        finally:
+            srv.shutdown()
+    refs = sorted({(c['banner'], t, c['size'] if t in fam else 0) for c in hk_cases for t in c['key']})
+    ref_cases = [{'size': sz, 'key': [t], 'banner': ban} for (ban, t, sz) in refs]
+    with runner.Pool(8) as pool:
+        hk_out = pool.map(do_hk, hk_cases)
+        ref_out = pool.map(do_hk, ref_cases)
+
+    def key_notes(res, desc):
+        try:
+            js = canon.load_json(res['out'])
+        except canon.CanonError as e:
+            ctx.violation('cli-hostkeys/no-report', 'exit %r, %s: %s' % (res['rc'], e, (res['out'] + res['err'])[-300:]), desc)
+            return None
+        return {a['name']: sorted(a['notes']) for a in canon.json_algs(js) if a['cat'] == 'key'}
+    ref_notes = {}
+    for k, c, res in zip(refs, ref_cases, ref_out):
+        d = key_notes(res, {'op': 'cli-hostkeys', 'case': c})
+        if d is not None:
+            ref_notes[k] = d.get(k[1])
+    for c, res in zip(hk_cases, hk_out):
+        desc = {'op': 'cli-hostkeys', 'case': c}
+        got = key_notes(res, desc)
+        if got is None:
+            continue
+        for t in c['key']:
+            k = (c['banner'], t, c['size'] if t in fam else 0)
+            if k not in ref_notes:
+                continue
+            want = ref_notes[k]
+            nontriv.add(('hostkey-over-tcp', t, k[2]))
+            if got.get(t) != want:
+                ctx.violation('measured-notes-depend-on-neighbours/key', 'host key %r audited beside %r (RSA %d bits) shows notes %r; audited alone with the same key it shows %r' % (
+                    t, [x for x in c['key'] if x != t], c['size'], got.get(t), want), desc)
+    nl += len(hk_cases) + len(ref_cases)
     ctx.cover(len(recs) + nl, nontriv, [reportfam.jsonable_peer(recs[0]['peer'])],
               'every database name (gss-* instantiated with base64 suffixes) x placements (alone/first/last/middle among random neighbours) x roles, text vs JSON vs --lookup; plus random peers; non-trivial = distinct (category, database name) seen')
     ctx.exhaustive = not q
